@@ -4,6 +4,7 @@ import (
 	"encoding/base64"
 	"encoding/binary"
 	"fmt"
+	"strings"
 	"sync"
 
 	"github.com/icon-project/goloop/common/crypto"
@@ -22,6 +23,7 @@ type txKey struct {
 	nonce     int64
 	value     int64
 	stepLimit int64
+	msg       int // bytes of message data (0 = plain transfer)
 }
 
 var (
@@ -62,8 +64,16 @@ func makeTx(from module.Wallet, to module.Address, ts, nonce, value, stepLimit i
 }
 
 func makeTxJSON(from module.Wallet, to module.Address, ts, nonce, value, stepLimit int64) (transaction.Transaction, []byte) {
+	return makeTxJSONMsg(from, to, ts, nonce, value, stepLimit, 0)
+}
+
+// makeTxJSONMsg: msg > 0 makes it a transfer carrying msg bytes of message data (a bigger transaction).
+func makeTxJSONMsg(from module.Wallet, to module.Address, ts, nonce, value, stepLimit int64, msg int) (transaction.Transaction, []byte) {
 	js := fmt.Sprintf(`{"version":"0x3","from":"%s","to":"%s","value":"0x%x","stepLimit":"0x%x","timestamp":"0x%x","nid":"0x1","nonce":"0x%x"}`,
 		from.Address().String(), to.String(), value, stepLimit, ts, nonce)
+	if msg > 0 {
+		js = js[:len(js)-1] + `,"dataType":"message","data":"0x` + strings.Repeat("5a", msg) + `"}`
+	}
 	bs, err := transaction.SerializeJSON([]byte(js), nil, sigExclude)
 	if err != nil {
 		panic(err)
@@ -103,7 +113,7 @@ func cachedTx(family []byte, k txKey) transaction.Transaction {
 	}
 	from := walletFor(family, k.w)
 	to := walletFor(family, k.to)
-	tx, js := makeTxJSON(from, to.Address(), k.ts, k.nonce, k.value, k.stepLimit)
+	tx, js := makeTxJSONMsg(from, to.Address(), k.ts, k.nonce, k.value, k.stepLimit, k.msg)
 	txMu.Lock()
 	if len(txMemF) > 300000 {
 		txMemF = map[any][]byte{}
